@@ -18,13 +18,42 @@
    exists) and is applied in /repo, so the model follows the fixed code.
    Proofs: Proofs/JsonValProofs.v, Proofs/RefLoadProofs.v.
 
-   What is NOT proved (hence `_partial`): the semantic round trip over whole
-   models (objects, eClass entries, containment nesting, `$ref` resolution,
-   uuid mode); json.dumps/json.loads are assumed (A-json).  Cross-resource
-   references stay lazy proxies (C14's subject).  Those parts rest on the
-   correspondence and the oracle of harness/props/c09.py. *)
+   WHOLE DOCUMENTS (Model/JsonDoc.v, Proofs/JsonDocProofs.v): the theorem of the property,
+          decode_jdoc mm (encode_jdoc mm sd F) = Some (map forget F)        (C09_document_round_trip)
+   for every metamodel mm of one package with distinct feature ids per class (wf_mm), both values of
+   SERIALIZE_DEFAULT_VALUES and EVERY forest F that is a state pyecore can hold (XmiDoc.wf_forest, the
+   premise of C08_document_round_trip: concrete classes, one slot per feature, single-valued features
+   hold at most one value, targets exist in the resource and conform, children conform, unique references
+   hold no target twice, a feature outside `_isset` reads as unset) whose attribute values are values of
+   their data types and whose children are listed per containment feature in the order of the class
+   (jwf_forest: the normal form of an observation; both clauses are needed, see the two Examples at the
+   end): any number of roots (0 included: a JSON array unless there is exactly one), any depth and width,
+   subclass instances ("eClass" in the nested object), single / many attributes with null iff None and
+   JSON-native numbers / booleans / strings, single / many cross references as {"eClass", "$ref"} in order
+   (duplicates kept in non-unique ones), single / many containments, null for a single reference /
+   containment that is set to None under SERIALIZE_DEFAULT_VALUES.  `forget` drops `_isset`.
+   encode_jdoc mirrors JsonResource.save / to_dict / to_dict_from_obj / _to_ref_from_obj, decode_jdoc
+   mirrors load / to_obj / process_inst in its two phases (C09_document_phase1, C09_document_phase2);
+   the attribute values go through JsonVal's to_json / from_json (C09_value_roundtrip_partial is a
+   building block), the "$ref" fragments through XmiDoc's render_path / resolve_frag
+   (C08_fragment_resolves).  The same abstract metamodels and forests as C08 are used.
+   Modelled fragment and abstractions (names are numbers, a value is named by a text, floats by numbers,
+   no order between the entries of different features): header of Model/JsonDoc.v.
+   One clause was false of the code as found: a resource WITHOUT root could not be saved (IndexError);
+   C09_empty_resource_as_found_refuted keeps that witness, the repair is in /repo (3dec3c1) and the model
+   follows the fixed code.
+   NOT covered by the document theorem: uuid mode and id attributes as "$ref", references into other
+   resources (they stay lazy proxies: C14), derived / transient features, custom mappers / encoders /
+   decoders, EClass / EStringToStringMapEntry special cases, the opposite handshakes of load (per end:
+   C09_no_dup, C09_reference_order_partial; the document lists both ends of a symmetric state),
+   from_string . to_string = id on the non-native data types (C17; here an object is named by its
+   text), json.dumps / json.loads (A-json).  Tie: harness/jsondoc.py -- json.loads of the bytes the real
+   save wrote = run_jsondoc_enc (entries of an object compared as sorted by key), the observation of the
+   real load of those bytes = run_jsondoc_dec, on generated metamodels / models (with opposites), and
+   every generated state satisfies wf_forest and jwf_forest.  The `_partial` names of the value theorems
+   are kept from the time they were all there was. *)
 From Coq Require Import ZArith List Bool.
-From PyecoreV Require Import Lib.PyBase Lib.PyList Model.OSet Model.XmiAttr Model.JsonVal Model.RefLoad Proofs.OSetProofs Proofs.JsonValProofs Proofs.RefLoadProofs.
+From PyecoreV Require Import Lib.PyBase Lib.PyList Model.OSet Model.XmiAttr Model.JsonVal Model.RefLoad Model.XmiDoc Model.JsonDoc Proofs.OSetProofs Proofs.JsonValProofs Proofs.RefLoadProofs Proofs.JsonDocProofs.
 Import ListNotations.
 Open Scope Z_scope.
 
@@ -106,4 +135,120 @@ Example C09_witness_values :
   to_json (fun s : str => s) TFloat (@PNone str) = JNull /\
   from_json (fun s : str => Some s) TBool (JStr [116; 114; 117; 101]) = PBool true /\
   from_json (fun s : str => Some s) TInt JNull = PNone.
+Proof. vm_compute. repeat split; reflexivity. Qed.
+
+(* ================================================================ whole documents *)
+
+(* save then load: every state of the modelled fragment comes back -- classes, attribute values (null iff
+   None, JSON-native numbers / booleans / strings), reference targets in order, nesting; no bound on depth,
+   width or number of roots *)
+Theorem C09_document_round_trip :
+  forall (mm : mmodel) (sd : bool) (F : list (tree (list path))),
+  wf_mm mm = true -> wf_forest mm F = true -> jwf_forest mm F = true ->
+  decode_jdoc mm (encode_jdoc mm sd F) = Some (map forget F).
+Proof. exact jdocument_round_trip. Qed.
+Print Assumptions C09_document_round_trip.
+
+(* read literally: an observation G (no `_isset`) is exactly what the document of the state in which
+   every feature was assigned loads as *)
+Theorem C09_document_round_trip_literal :
+  forall (mm : mmodel) (sd : bool) (G : list (tree (list path))),
+  wf_mm mm = true -> map forget G = G ->
+  wf_forest mm (map (set_all (all_ids mm)) G) = true -> jwf_forest mm (map (set_all (all_ids mm)) G) = true ->
+  decode_jdoc mm (encode_jdoc mm sd (map (set_all (all_ids mm)) G)) = Some G.
+Proof. exact jdocument_round_trip_literal. Qed.
+Print Assumptions C09_document_round_trip_literal.
+
+(* the two phases of load, separately: (1) to_obj reads the object of a tree back as the tree with its
+   attribute values and children, the JSON values of the references kept aside (`_load_href`);
+   (2) process_inst(resolve_local=True) resolves them against the tree built in phase 1 *)
+Theorem C09_document_phase1 :
+  forall (mm : mmodel) (sd : bool) (S : list sk), wf_mm mm = true ->
+  forall t, wf_tree mm S t = true -> jwf_tree mm t = true ->
+  forall decl, jdec_obj mm (t_cls t) (jenc_tree mm sd S decl t) = Some (jpre mm sd S t).
+Proof. exact jphase1. Qed.
+Print Assumptions C09_document_phase1.
+
+Theorem C09_document_phase2 :
+  forall (mm : mmodel) (sd : bool) (S : list sk), wf_mm mm = true ->
+  forall t, wf_tree mm S t = true -> jlink_tree mm S (jpre mm sd S t) = Some (forget t).
+Proof. exact jphase2. Qed.
+Print Assumptions C09_document_phase2.
+
+(* one attribute value through to_dict / json / process_inst, on the names of the values; and the premise
+   `canon` holds of the name of every int, float, bool, str, object and of None *)
+Theorem C09_document_value :
+  forall (t : etag) (v : ostr), canon t v = true -> dec_val t (enc_val t v) = Some v.
+Proof. exact val_roundtrip. Qed.
+Print Assumptions C09_document_value.
+
+Theorem C09_document_value_premise :
+  (forall z, canon TInt (Some (Text.str_of_Z z)) = true) /\ (forall z, canon TFloat (Some (Text.str_of_Z z)) = true) /\
+  (forall b : bool, canon TBool (Some (if b then str_true else str_false)) = true) /\
+  (forall s, canon TStr (Some s) = true) /\ (forall s, canon TOther (Some s) = true) /\
+  (forall t, canon t None = true).
+Proof.
+  exact (conj canon_int (conj canon_float (conj canon_bool (conj canon_str (conj canon_other canon_none))))).
+Qed.
+Print Assumptions C09_document_value_premise.
+
+(* the normal form of the children: keys grouped per containment feature <-> the list is its regrouping *)
+Theorem C09_document_children_normal_form :
+  forall (A : Type) (L : list feat), NoDup (map f_id L) -> forall kids : list (Z * A),
+  map fst kids = flat_map (fun d => map fst (filter (fun p => fst p =? f_id d) kids)) L ->
+  kids = flat_map (fun d => filter (fun p => fst p =? f_id d) kids) L.
+Proof. exact @grouped_ok. Qed.
+Print Assumptions C09_document_children_normal_form.
+
+(* non-vacuity: two roots (a JSON array), a many attribute ['a b', None, 'c'] (null inside the array), an int
+   written as the JSON number -5, a subclass instance under a containment declared with the superclass
+   ("eClass" in the nested object) whose many bool attribute is [true, None, false], two cross references in
+   order, a reference to the second root, an empty string, a single containment; every premise holds and
+   the round trip is computed for both values of SERIALIZE_DEFAULT_VALUES *)
+Example C09_document_witness :
+  wf_mm jx_mm = true /\ wf_forest jx_mm jx_forest = true /\ jwf_forest jx_mm jx_forest = true /\
+  encode_jdoc jx_mm false jx_forest =
+    JArr
+      [JObj
+         [(-1, JAtom (JInt 0));
+          (0, JArr [JAtom (JStr [97; 32; 98]); JAtom JNull; JAtom (JStr [99])]);
+          (6, JAtom (JInt (-5)));
+          (2, JArr [JObj [(-1, JAtom (JInt 2)); (-2, JAtom (JStr [47; 48; 47; 64; 1114115; 46; 49]))];     (* '/0/@parts.1' *)
+                    JObj [(-1, JAtom (JInt 1)); (-2, JAtom (JStr [47; 48; 47; 64; 1114115; 46; 48]))]]);
+          (3, JArr [JObj [];
+                    JObj [(-1, JAtom (JInt 2)); (4, JAtom (JStr []));
+                          (7, JArr [JAtom (JBool true); JAtom JNull; JAtom (JBool false)]);
+                          (5, JObj [(-1, JAtom (JInt 0)); (-2, JAtom (JStr [47; 49]))])]]);                   (* '/1' *)
+          (8, JObj [])];
+       JObj [(-1, JAtom (JInt 0)); (1, JAtom (JStr [120]))]] /\
+  decode_jdoc jx_mm (encode_jdoc jx_mm false jx_forest) = Some (map forget jx_forest) /\
+  decode_jdoc jx_mm (encode_jdoc jx_mm true jx_forest) = Some (map forget jx_forest).
+Proof. vm_compute. repeat split; reflexivity. Qed.
+
+(* the clause "any number of roots" was false of the code as found: `dict_list[0]` on a resource without
+   root raised IndexError (fixed in /repo by 3dec3c1; encode_jdoc follows the fixed code) *)
+Example C09_empty_resource_as_found_refuted :
+  wf_forest jx_mm [] = true /\ jwf_forest jx_mm [] = true /\
+  encode_jdoc_as_found jx_mm false [] = None /\
+  encode_jdoc jx_mm false [] = JArr [] /\ decode_jdoc jx_mm (encode_jdoc jx_mm false []) = Some [].
+Proof. vm_compute. repeat split; reflexivity. Qed.
+
+(* the premise jwf_forest is needed, clause 1: the document lists the children per feature, so a forest that
+   lists the child under `main` (8) before the one under `parts` (3) is read back in the order of the class *)
+Example C09_document_children_come_back_grouped :
+  let B := Node 1 [] [(4, [None]); (7, [])] [(5, @nil path)] [] in
+  let F : list (tree (list path)) :=
+    [Node 0 [3; 8] [(0, []); (1, [Some [100]]); (6, [Some [48]])] [(2, [])] [(8, B); (3, B)]] in
+  wf_forest jx_mm F = true /\ jwf_forest jx_mm F = false /\
+  decode_jdoc jx_mm (encode_jdoc jx_mm false F)
+  = Some [Node 0 [] [(0, []); (1, [Some [100]]); (6, [Some [48]])] [(2, [])] [(3, B); (8, B)]].
+Proof. vm_compute. repeat split; reflexivity. Qed.
+
+(* ... clause 2: a text that is not the name of a value of the type ('05' for an int) is not a state; the
+   JSON number 5 is read back under its name '5' *)
+Example C09_document_values_are_named_canonically :
+  let F : list (tree (list path)) := [Node 0 [6] [(0, []); (1, [Some [100]]); (6, [Some [48; 53]])] [(2, [])] []] in
+  wf_forest jx_mm F = true /\ jwf_forest jx_mm F = false /\
+  decode_jdoc jx_mm (encode_jdoc jx_mm false F)
+  = Some [Node 0 [] [(0, []); (1, [Some [100]]); (6, [Some [53]])] [(2, [])] []].
 Proof. vm_compute. repeat split; reflexivity. Qed.
